@@ -1,7 +1,7 @@
 (* C04, asyncio-interleaving part.  Property theorems only.
    Model: Conc/ServerConc.v at asyncio granularity (one scheduling choice = everything a task
    does between two suspension points; only sends and handler invocations suspend). *)
-From VT Require Import Conc.ConcProofs.
+From VT Require Import Conc.ConcProofs Conc.ConnConc Conc.ConnProofs.
 
 (* For ANY number of concurrent terminating tasks (server.disconnect(), client DISCONNECT,
    transport loss, on any sids / namespaces / transports), any well-formed quiescent start and
@@ -23,3 +23,35 @@ Theorem C04_async_window_closed :
     In t (c_tasks (run_sched GAsync R causes sched m0 env0)) -> window_of t = None.
 Proof. exact async_window_closed. Qed.
 Print Assumptions C04_async_window_closed.
+
+(* ---- a CONNECT in progress beside the terminating causes (model Conc/ConnConc.v) ---- *)
+
+(* A CONNECT for namespace [k_ns k] arrives on a live transport and is registered (manager.connect,
+   fresh session id [k_sid k]; m1 is the manager after that); its coroutine connect handler is
+   SUSPENDED and will accept.  ANY number of terminating tasks (server.disconnect(), client
+   DISCONNECT, transport loss - of this transport's established sessions, of the new session, of
+   anybody) are then interleaved with the rest of the connect in ANY order: the manager, the
+   environ, the terminating tasks and their log are exactly those of the terminating tasks run
+   alone from m1 (the connect's remaining blocks do not touch the shared state), hence the whole
+   [outcome] of C04_once_async holds, judged from m1: every established session and the new one
+   get their disconnect handler exactly once if a cause is aimed at them and are untouched
+   otherwise, nothing is left behind, no task raises.  [ac] = always_connect. *)
+Theorem C04_connect_in_progress_accept :
+  forall ac R m0 env0 causes k,
+    quiescent_start m0 -> fresh_sid m0 (k_sid k) -> memb (k_eio k) env0 = true -> k_accept k = true ->
+    forall sched,
+      let m1 := fst (mgr_connect m0 (k_eio k) (k_ns k) (k_sid k)) in
+      let x := xrun ac R (xinit m0 env0 causes [k]) (to_handler ac (List.length causes) ++ sched) in
+      x_cfg x = run_sched GAsync R causes sched m1 env0 /\
+      outcome R m1 env0 causes (x_cfg x).
+Proof. exact connect_in_progress_accept. Qed.
+Print Assumptions C04_connect_in_progress_accept.
+
+(* Whatever the handler answers and whatever runs beside it (no hypothesis on the start, any
+   schedule, connect not necessarily in progress first): the connect handler of one request
+   runs at most once. *)
+Theorem C04_connect_handler_at_most_once :
+  forall ac R m env causes k sched,
+    (chcount (k_sid k) (k_ns k) (x_log (xrun ac R (xinit m env causes [k]) sched)) <= 1)%nat.
+Proof. exact connect_handler_at_most_once. Qed.
+Print Assumptions C04_connect_handler_at_most_once.
